@@ -106,6 +106,9 @@ SPECS = {
     # ... and with DIFFERENT selections: a two-variable condition object under entity(x) and under set_of([x, y]); a
     # sub-query object as an operand in a query over x and in a query over x and z
     "cd_x": "special", "cd_xy": "special", "sd_x": "special", "sd_xz": "special",
+    # ... a disjunction object whose FIRST side (over a third, never selected variable) is false everywhere: every row
+    # comes from its second side, under entity(y) and under set_of([y, w])
+    "ce_y": "special", "ce_yw": "special",
     "rule_late": "special",
     "iter": "special",
     "rule": "special",
@@ -120,7 +123,7 @@ POOLS = {
     "E": ("nd_k", "nd_join", "nd_rule", "nd_o"),
     "F": ("sh_cond", "sh_val", "sh_sel", "sh_valne"),
     "G": ("sq_part", "sq_nested", "cc_alone", "cc_or", "cc_and"),
-    "I": ("cd_x", "cd_xy", "sd_x", "sd_xz"),
+    "I": ("cd_x", "cd_xy", "sd_x", "sd_xz", "ce_y", "ce_yw"),
     "H": ("cat_all", "cat_in", "cat_has", "cat_flat"),
 }
 
@@ -133,7 +136,7 @@ def alphabet(pool):
             continue
         ops += [("F", name), ("T1", name), ("K1", name)]
         if name in ("join", "union", "and_unions", "dupjoin", "rule", "iter", "indep", "indep_pred", "nd_join", "nd_rule",
-                    "rule_late", "cd_xy", "sd_xz"):
+                    "rule_late", "cd_xy", "sd_xz", "ce_yw"):
             ops.append(("T2", name))
         if name in ("fl_pe", "fl_all"):
             ops += [("T2", name), ("T3", name), ("T5", name)]
@@ -187,7 +190,11 @@ class Pool:
                 sub = an(entity(y3, or_(and_(y3.p == z3.p, y3.q != one), y3.q == z3.q)))     # one sub-query object
                 self.q["sd_x"] = an(entity(x3, sub.p == x3.p))
                 self.q["sd_xz"] = an(set_of([x3, z3], sub.p == x3.p))
-            self.cd_sel = {"cd_xy": (xi_, yi_), "sd_xz": (x3, z3)}
+                xe, ye, we = let(W.Item, self.world["DA"]), let(W.Item, self.world["DB"]), let(W.Item, self.world["DB"])
+                ce = or_(xe.p == inst.v(7), ye.p == we.q)
+                self.q["ce_y"] = an(entity(ye, ce))
+                self.q["ce_yw"] = an(set_of([ye, we], ce))
+            self.cd_sel = {"cd_xy": (xi_, yi_), "sd_xz": (x3, z3), "ce_yw": (ye, we)}
         if pool == "H":
             from entity_query_language import concatenate, flatten, in_, contains
             xl, el = let(W.Item, self.world["DL"]), let(W.Item, self.world["DE"])
@@ -296,7 +303,7 @@ class Pool:
             return [tuple(Q.norm(r[s]) for s in self.sh_sel) for r in rows]
         if name == "cc_and":
             return [tuple(Q.norm(r[s]) for s in self.cc_sel) for r in rows]
-        if name in ("cd_xy", "sd_xz"):
+        if name in ("cd_xy", "sd_xz", "ce_yw"):
             return [tuple(Q.norm(r[s]) for s in self.cd_sel[name]) for r in rows]
         if name in ("cat_has", "cat_flat"):
             return [tuple(Q.norm(r[s]) for s in self.cat_sel[name]) for r in rows]
@@ -378,7 +385,7 @@ def same(name, got, exp):
             or (isinstance(exp, tuple) and exp and exp[0] == "value"):
         return got == exp
     spec = SPECS[name]
-    if name in ("cc_and", "cd_xy", "sd_xz", "cd_x", "sd_x"):
+    if name in ("cc_and", "cd_xy", "sd_xz", "cd_x", "sd_x", "ce_y", "ce_yw"):
         return set(got) == set(exp)
     if name.startswith(("sq_", "cc_")):
         # pool G: the statement promises the same result SET; with a condition object shared by several queries the order in
@@ -442,8 +449,10 @@ def describe(case, inst):
             lines.append(f"{name}: " + Q.up_query(spec, inst))
         elif name == "iter":
             lines.append("iter: xi = let(Item, iter(DA)); q = an(entity(xi, xi.p >= 2))")
-        elif name in ("cd_x", "cd_xy", "sd_x", "sd_xz"):
+        elif name in ("cd_x", "cd_xy", "sd_x", "sd_xz", "ce_y", "ce_yw"):
             lines.append({
+                "ce_y": "xe = let(Item, DA); ye = let(Item, DB); we = let(Item, DB); ce = or_(xe.p == 7, ye.p == we.q)   # ONE condition object\nce_y: an(entity(ye, ce))",
+                "ce_yw": "ce_yw: an(set_of([ye, we], ce))",
                 "cd_x": "x = let(Item, DA); y = let(Item, DB); cd = or_(x.p == y.q, x.p == 3)   # ONE condition object\ncd_x: an(entity(x, cd))",
                 "cd_xy": "cd_xy: an(set_of([x, y], cd))",
                 "sd_x": "x3, y3, z3 = let(Item, DB) x 3; sub = an(entity(y3, or_(and_(y3.p == z3.p, y3.q != 1), y3.q == z3.q)))   # ONE sub-query object\nsd_x: an(entity(x3, sub.p == x3.p))",
